@@ -815,19 +815,22 @@ pub fn judge_emission(s: &Site, src: &str, want: &Want, obs: &str) -> Option<Str
         _ => return None,
     };
     let v = if matches!(s.rule, Rule::EnumNext) { v + 1 } else { v };
-    let hlsl = emit_hlsl(&program(s, src));
-    if hlsl.starts_with("!panic") {
-        return Some(format!("FAIL:panic {}", &hlsl[7..]));
+    let mut seen = false;
+    for (target, tname) in [(rssl::Target::HlslForDirectX, "HLSL"), (rssl::Target::Msl, "MSL")] {
+        let text = emit_target(&program(s, src), target);
+        if text.starts_with("!panic") {
+            return Some(format!("FAIL:panic {}", &text[7..]));
+        }
+        if text.starts_with("!error") {
+            continue;
+        }
+        match emitted_number(&text, marker, end) {
+            Some(n) if n == v => seen = true,
+            Some(n) => return Some(format!("FAIL:{} emits `{}{}` in {} for an expression whose value is {}", s.name, marker, n, tname, v)),
+            None => {} // printed symbolically (enumerator name, expression) or not at all: nothing to compare
+        }
     }
-    if hlsl.starts_with("!error") {
-        return None;
-    }
-    match emitted_number(&hlsl, marker, end) {
-        Some(n) if n == v => Some("emit-ok".into()),
-        // 32-bit two's complement spellings of the same value (`4294967295u` for an int of -1 is not produced, but be exact)
-        Some(n) => Some(format!("FAIL:{} emits `{}{}` in HLSL for an expression whose value is {}", s.name, marker, n, v)),
-        None => None, // printed symbolically (enumerator name, expression): nothing to compare
-    }
+    if seen { Some("emit-ok".into()) } else { None }
 }
 
 // ------------------------------------------------------------------------------------------
